@@ -171,10 +171,12 @@ impl<S> Map<S> {
 
     pub(crate) fn begin_group(&mut self) {
         self.commands.begin_group();
+        self.active_char.begin_group();
     }
 
     pub(crate) fn end_group(&mut self) -> std::result::Result<(), groupingmap::NoGroupToEndError> {
         self.commands.end_group()?;
+        self.active_char.end_group()?;
         Ok(())
     }
 
